@@ -20,8 +20,8 @@ ID = "C17"
 CASES = {"quick": 640, "thorough": 8000}
 FLOOR = {"quick": 450, "thorough": 6000}
 FLOOR_COUNTERS = {
-    "quick": {"queries_sharing_a_coordinate": 150, "bandwidths_judged": 3000, "queries_judged": 2500, "assignments_judged": 30000, "degenerate_cloud_models": 80, "periodic_models": 100, "relation_pairs": 900, "oas_calls_seen": 3000, "estimators_with_a_past": 120, "metric_given_explicitly": 200, "models_with_zero_weights": 40, "evaluations_above_2^22_grid_pairs_x_queries": 2},
-    "thorough": {"queries_sharing_a_coordinate": 2000, "bandwidths_judged": 45000, "queries_judged": 35000, "assignments_judged": 450000, "degenerate_cloud_models": 1000, "periodic_models": 1300, "relation_pairs": 12000, "oas_calls_seen": 45000, "estimators_with_a_past": 1800, "metric_given_explicitly": 2500, "models_with_zero_weights": 500, "evaluations_above_2^22_grid_pairs_x_queries": 30},
+    "quick": {"queries_sharing_a_coordinate": 150, "bandwidths_judged": 3000, "queries_judged": 2500, "assignments_judged": 30000, "degenerate_cloud_models": 80, "periodic_models": 100, "relation_pairs": 900, "oas_calls_seen": 3000, "estimators_with_a_past": 120, "metric_given_explicitly": 200, "models_with_zero_weights": 40, "evaluations_above_2^22_grid_pairs_x_queries": 2, "weights_sharing_memory_with_the_descriptors": 30, "fits_repeated_after_an_abort_inside_the_metric": 15},
+    "thorough": {"queries_sharing_a_coordinate": 2000, "bandwidths_judged": 45000, "queries_judged": 35000, "assignments_judged": 450000, "degenerate_cloud_models": 1000, "periodic_models": 1300, "relation_pairs": 12000, "oas_calls_seen": 45000, "estimators_with_a_past": 1800, "metric_given_explicitly": 2500, "models_with_zero_weights": 500, "evaluations_above_2^22_grid_pairs_x_queries": 30, "weights_sharing_memory_with_the_descriptors": 400, "fits_repeated_after_an_abort_inside_the_metric": 200},
 }
 RULE = (
     "case = descriptor cloud (1-4 dimensions, 30-160 points; multi-modal / anisotropic / collinear / constant coordinate / "
@@ -104,10 +104,16 @@ def gen(rng, tier, index):
     if kind == "quantised":
         Qq = np.round(Qq * 2) / 2
         Qq[:, 0] += 0.25  # quantised like the data in all but one coordinate, hence never a descriptor
+    alias_w = bool(kind in ("bimodal", "anisotropic", "generic") and d >= 2 and not bigq and rng.random() < 0.2)
+    if alias_w:  # the weights will be handed over as a VIEW of a (positive) descriptor column
+        D[:, -1] = np.abs(D[:, -1]) + 0.1
+        Qq = D[rng.integers(0, n, size=nq)] + 0.37 * D.std(axis=0).mean() * rng.normal(size=(nq, d))
     loc = {"fpoints": float(rng.uniform(0.02, 0.9))} if rng.random() < 0.6 else {"fspread": float(10.0 ** rng.uniform(np.log10(0.05), np.log10(3.0)))}
     return {
         "D": D,
-        "w": None if rng.random() < 0.5 else rng.uniform(0.2, 2.0, size=n) * (rng.random(n) >= (0.15 if rng.random() < 0.3 else 0.0)),  # some sets with exactly-zero weights
+        "w": (D[:, -1].copy() if alias_w else (None if rng.random() < 0.5 else rng.uniform(0.2, 2.0, size=n) * (rng.random(n) >= (0.15 if rng.random() < 0.3 else 0.0)))),  # some sets with exactly-zero weights
+        "alias_w": alias_w,
+        "aborted_fit": int(rng.integers(1, 4)) if rng.random() < 0.3 else 0,
         "metric_route": gens.pick(rng, ("none", "none", "explicit", "partial", "wrapper")),
         "kind": kind,
         "cell": cell,
@@ -253,6 +259,7 @@ def _model(case, D, w, G, cell, probe, past=True):
 
     mp = None if cell is None else {"cell_length": cell.copy()}
     route = case.get("metric_route", "none")
+    abort = {"at": 0}
     mkw = {}
     if route != "none":
         # the same periodic metric handed over explicitly, in the public forms a user would write it
@@ -266,6 +273,10 @@ def _model(case, D, w, G, cell, probe, past=True):
             mkw["metric"] = functools.partial(_ped)
         else:
             def forwarding(X, Y=None, **kwargs):
+                if abort["at"]:
+                    abort["at"] -= 1
+                    if not abort["at"]:
+                        raise RuntimeError("metric aborted (simulated)")
                 return _ped(X, Y, **kwargs)
 
             mkw["metric"] = forwarding
@@ -293,9 +304,31 @@ def _model(case, D, w, G, cell, probe, past=True):
             probe.past = True
         except Exception:  # noqa: BLE001  (watchdog, singular decoy bandwidths, ...)
             est = None
+    if est is None:
+        Dfit = D.copy()
+        wfit = None if w is None else w.copy()
+        if case.get("alias_w") and w is not None and np.array_equal(w, D[:, -1]):
+            wfit = Dfit[:, -1]  # the weights share memory with the descriptors
+            probe.alias = True
+        est = SparseKDE(Dfit, wfit, metric_params=mp, **mkw, **case["loc"])
+        if case.get("aborted_fit") and route == "wrapper" and past:
+            # a failure in the history: a successful fit on another grid of the same size, then a fit on the grid of the case
+            # that is aborted inside the user's metric, then the same fit repeated
+            Du = np.unique(D, axis=0)
+            if len(Du) > len(G) + 1:
+                try:
+                    with Probe():
+                        est.fit(Du[np.random.default_rng(case["gseed"] + 1).permutation(len(Du))[: len(G)]].copy())
+                    abort["at"] = int(case["aborted_fit"])
+                    try:
+                        est.fit(G.copy())
+                    except RuntimeError:
+                        probe.aborted = True
+                    abort["at"] = 0
+                except Exception:  # noqa: BLE001
+                    abort["at"] = 0
+                    est = SparseKDE(Dfit, wfit, metric_params=mp, **mkw, **case["loc"])
     with probe:
-        if est is None:
-            est = SparseKDE(D.copy(), None if w is None else w.copy(), metric_params=mp, **mkw, **case["loc"])
         est.fit(G.copy())
     return est
 
@@ -419,6 +452,10 @@ def run(case, j):
         raise
     if case.get("bigq"):
         j.note("evaluations_above_2^22_grid_pairs_x_queries")
+    if getattr(pr, "alias", False):
+        j.note("weights_sharing_memory_with_the_descriptors")
+    if getattr(pr, "aborted", False):
+        j.note("fits_repeated_after_an_abort_inside_the_metric")
     if getattr(pr, "metric_route", None):
         j.note("metric_given_explicitly")
     if w is not None and np.any(w == 0):
